@@ -18,6 +18,14 @@ Definition d_op (v : val) : op :=
   | 3 => AppendVoteMap (dlist (dpair d_order dN) (dnth 1 v))
   | _ => AppendVoteMap (wrapper (dlist d_class (dnth 1 v)))    (* 6: populate_X with the sampler's raw rows *)
   end.
+(* 7: a maintenance / accessor call between appends: (7 0) recompute_cardinality_param(), (7 k>0) a read-only
+   accessor (infer_type, flatten_strict, full_profile, vote_map): adds no vote *)
+Inductive hstep := HOp (o : op) | HRecompute | HRead.
+Definition d_step (v : val) : hstep :=
+  match dnat (dnth 0 v) with
+  | 7 => match dnat (dnth 1 v) with 0 => HRecompute | _ => HRead end
+  | _ => HOp (d_op v)
+  end.
 
 Definition e_class (c : list N) : val := elist eN c.
 Definition e_order (o : order) : val := elist e_class o.
@@ -51,17 +59,19 @@ Definition observe (raised : bool) (ms : list order) (s : state) : val :=
        e_dt (spec_type ms) ].                        (* 23 the type of the multiset of votes added so far,
                                                            by definition (Proofs: = data_type when ms <> []) *)
 
-Fixpoint observe_run (s : state) (ms : list order) (ops : list op) : list val :=
-  match ops with
+Fixpoint observe_run (s : state) (ms : list order) (hs : list hstep) : list val :=
+  match hs with
   | [] => []
-  | o :: r =>
+  | HOp o :: r =>
       let s' := step s o in
       let ms' := (ms ++ votes o)%list in
       observe (step_raises s o) ms' s' :: observe_run s' ms' r
+  | HRecompute :: r => let s' := recompute s in observe false ms s' :: observe_run s' ms r
+  | HRead :: r => observe false ms s :: observe_run s ms r
   end.
 
 Definition op_history (v : val) : val :=
-  VL (observe false [] init :: observe_run init [] (dlist d_op v)).
+  VL (observe false [] init :: observe_run init [] (dlist d_step v)).
 
 (* c02.wrapper  payload: the sampler's rows ((a ...) ...) ; answer: prefsampling_ordinal_wrapper's vote map *)
 Definition op_wrapper (v : val) : val := elist (epair e_order eN) (wrapper (dlist d_class v)).
